@@ -9,6 +9,7 @@ use quote::ToTokens;
 use syn::visit::Visit;
 
 mod attrs;
+mod clicheck;
 mod front;
 mod subpat;
 
